@@ -127,6 +127,74 @@ def markdown_table(lab: Lab, cur, prev):
 
 def findings(lab: Lab, q: str, n: int, full: bool, repo: bool):
     """-> (threshold asked for, tags of the units shown in order of first appearance, 'more rows' numbers)"""
+    try:
+        asked, shown, more = _findings_hooked(lab, q, n, full, repo)
+        if asked:
+            return asked, shown, more
+    except Unknown:
+        pass
+    return _findings_real(lab, q, n, full, repo)
+
+
+def _findings_real(lab: Lab, q: str, n: int, full: bool, repo: bool):
+    """the same observation on a report built through the repo's constructors (whatever method of Report the renderer uses):
+    n functions longer than 30 lines (100, 99, ...) and three that are not (30, 29, 7)"""
+    from .report_eval import ReportLab
+    prj = lab.prj
+    rl = ReportLab(prj)
+    run = Run()
+    base = _hook(run)
+
+    def hook(it, kind, f, args, kwargs, node, cur):
+        r = rl.hook(it, kind, f, args, kwargs, node, cur)
+        if r is not NotImplemented:
+            return r
+        return base(it, kind, f, args, kwargs, node, cur)
+    rl.it.hook = hook
+    cb = rl.new(rl.Codebase, "/root")
+    long_ones = [(k, 100 - k) for k in range(n)]
+    short = [(90, 30), (91, 29), (92, 7)]
+    items = long_ones + short
+    for fno in range(2):
+        chunk = items[fno::2]
+        ms = [rl.new(rl.Measurement, f"fn{k:02d}x", rl.new(rl.Location, 1000 + k, 2000 + k), rl.new(rl.Location, 3000 + k, 4000 + k), v) for k, v in chunk]
+        rl.call(cb, "add_file", rl.new(rl.Entry, f"dir/file{fno}.py", "sum", "Python", sum(v for _, v in chunk), ms))
+    rl.call(cb, "aggregate")
+    rp = rl.new(rl.Repo, "own", "nam", "br") if repo else None
+    rep = rl.new(rl.Report, cb, rp) if repo else rl.new(rl.Report, cb)
+    fn = prj.func(q)
+    args, kwargs = [], {}
+    for p_ in fn.params():
+        if p_ == "console":
+            args.append(Sym("console", _open=True))
+        elif p_ == "report":
+            args.append(rep)
+        elif p_ == "full":
+            kwargs["full"] = full
+        else:
+            raise Unknown(f"print_findings parameter {p_}")
+    rl.it.call(fn, args, kwargs)
+    texts = []
+    for name, aa, kw in run.effects:
+        texts += deep_strs(list(aa))
+    shown = []
+    for t in texts:
+        for mm in re.finditer(r"fn(\d\d)x", t):
+            k = int(mm.group(1))
+            if k not in shown:
+                shown.append(k)
+    more = [int(x) for t in texts if "more" in t.lower() for x in re.findall(r"\d+", t)]
+    below = [k for k in shown if k >= 90]
+    if below:
+        asked = [{90: 29, 91: 28, 92: 0}[max(below)]]      # a function of that length is listed: the cut is below it
+    elif full and (n - 1) not in shown:
+        asked = [101 - n]
+    else:
+        asked = [30]
+    return asked, [k for k in shown if k < 90], more
+
+
+def _findings_hooked(lab: Lab, q: str, n: int, full: bool, repo: bool):
     units = []
     M = lab.prj.cls("codelimit.common.Measurement:Measurement")
     for k in range(n):
